@@ -183,7 +183,44 @@ TileRec(op) ==
           oax == IF op = "LSTM" THEN <<2, 1, 1>> ELSE <<2, 1>>
           c == CaseOf("tile", op, attrs, ins, NOut(op), <<op, "tile_law">> \o OptFeat(opt)) IN
       (c.emit /\ TileLawAx(LAMBDA i : SemRecurrent(op, attrs, i, NOut(op)).allowed, ins, iax, oax)) => P(c @@ [tile |-> TileFieldAx(iax, oax)])
-EmitInvalid == st.phase = "invalid" /\ Invalid(st.p.op) /\ TileRec(st.p.op) /\ st' = [st EXCEPT !.phase = "done"]
+\* zero-padding law: hidden units whose weights, recurrence weights, biases, peepholes and initial state are all zero stay at exactly zero
+\* (g(0) = h(0) = 0 for relu and tanh, whatever the gates do) and feed nothing back; input features whose weights are zero contribute
+\* nothing. So the case with q more hidden units and p more input features, padded with zeros block by block (the gates are stacked along
+\* the hidden axis of W, R, B and P), has the outputs of the case, padded with q zeros along the hidden axis. TLC checks the law on the
+\* specification for (p, q) = (1, 1) and (0, 2); the harness pads the flagged case to 1024 hidden units and 512 input features - weight
+\* matrices of more than a million elements, a size no enumeration reaches.
+PadAxis(t, a, b, x) ==
+   LET e == t.shape[a + 1] \div b ne == e + x nshape == [t.shape EXCEPT ![a + 1] = b * ne] IN
+   Mk(t.dt, nshape, LAMBDA idx : LET j == idx[a + 1] IN
+                                  IF j % ne >= e THEN 0 ELSE At(t, [idx EXCEPT ![a + 1] = (j \div ne) * e + (j % ne)]))
+Gates(op) == CASE op = "RNN" -> 1 [] op = "GRU" -> 3 [] op = "LSTM" -> 4
+PadPlan(op) ==     \* [pos (1-based), axis (0-based), blocks, dim]
+   <<[pos |-> 1, axis |-> 2, blocks |-> 1, dim |-> "i"], [pos |-> 2, axis |-> 1, blocks |-> Gates(op), dim |-> "h"], [pos |-> 2, axis |-> 2, blocks |-> 1, dim |-> "i"],
+     [pos |-> 3, axis |-> 1, blocks |-> Gates(op), dim |-> "h"], [pos |-> 3, axis |-> 2, blocks |-> 1, dim |-> "h"],
+     [pos |-> 4, axis |-> 1, blocks |-> 2 * Gates(op), dim |-> "h"], [pos |-> 6, axis |-> 2, blocks |-> 1, dim |-> "h"]>> \o
+   (IF op = "LSTM" THEN <<[pos |-> 7, axis |-> 2, blocks |-> 1, dim |-> "h"], [pos |-> 8, axis |-> 1, blocks |-> 3, dim |-> "h"]>> ELSE <<>>)
+RECURSIVE PadWith(_, _, _, _, _)
+PadWith(ins, plan, k, p, q) ==
+   IF k > Len(plan) THEN ins
+   ELSE LET e == plan[k] x == IF e.dim = "h" THEN q ELSE p IN
+        PadWith(IF e.pos <= Len(ins) /\ ~IsNil(ins[e.pos]) /\ x > 0 THEN [ins EXCEPT ![e.pos] = PadAxis(@, e.axis, e.blocks, x)] ELSE ins, plan, k + 1, p, q)
+OutAxes(op) == IF op = "LSTM" THEN <<3, 2, 2>> ELSE <<3, 2>>
+PadLawAt(op, attrsOf(_), ins, Hd, p, q) ==
+   LET a == SemRecurrent(op, attrsOf(Hd), ins, NOut(op)).allowed
+       b == SemRecurrent(op, attrsOf(Hd + q), PadWith(ins, PadPlan(op), 1, p, q), NOut(op)).allowed IN
+   /\ a.must = "value" /\ b.must = "value" /\ Len(a.value) = Len(b.value)
+   /\ \A j \in 1..Len(a.value) : b.value[j] = PadAxis(a.value[j], OutAxes(op)[j], 1, q)
+PadRec(op) ==
+   \A a \in StructActs(op) : \A opt \in {{}, AllOpt(op)} :
+      LET ins == BuildInputs(op, "f32", a, 2, 2, 2, 2, opt, 0, FALSE, FALSE)
+          attrsOf(h) == <<AI("hidden_size", h)>> \o ActAttr(op, a)
+          plan == PadPlan(op)
+          used == SelectSeq(plan, LAMBDA e : e.pos <= Len(ins) /\ ~IsNil(ins[e.pos]))
+          c == CaseOf("pad", op, attrsOf(2), ins, NOut(op), <<op, "zero_padding_law">> \o OptFeat(opt)) IN
+      (c.emit /\ PadLawAt(op, attrsOf, ins, 2, 1, 1) /\ PadLawAt(op, attrsOf, ins, 2, 0, 2)) =>
+         P(c @@ [pad |-> [ins |-> [k \in 1..Len(used) |-> [pos |-> used[k].pos - 1, axis |-> used[k].axis, blocks |-> used[k].blocks, dim |-> used[k].dim]],
+                          outs |-> [j \in 1..NOut(op) |-> [axis |-> OutAxes(op)[j]]], attr |-> "hidden_size"]])
+EmitInvalid == st.phase = "invalid" /\ Invalid(st.p.op) /\ TileRec(st.p.op) /\ PadRec(st.p.op) /\ st' = [st EXCEPT !.phase = "done"]
 
 Next == Build \/ Step \/ Emit \/ EmitInvalid
 Spec == Init /\ [][Next]_st
